@@ -10,6 +10,11 @@ import pipescen
 import vlib
 
 
+# The files of a set have names that differ in letter case only: on the file systems the tools run on these are
+# different files, and each of them is part of the compilation set (nothing may treat two of them as one).
+FILE_NAMES = ["Unit.st", "unit.st", "UNIT.st", "uNIT.st", "unIT.st", "uniT.st", "UNit.st", "UnIt.st"]
+
+
 def build_files(decls, arrangement):
     """decls: list of (kind, fault); arrangement: list of files, each a list of 1-based declaration ids.
     Returns [(file name, text, [(decl id, start, end)])]"""
@@ -21,7 +26,7 @@ def build_files(decls, arrangement):
             t = pipescen.decl_text(*decls[d - 1])
             spans.append((d, len(text.encode("utf-8")), len((text + t).encode("utf-8"))))
             text += t
-        out.append(("f%d.st" % (fi + 1), text, spans))
+        out.append((FILE_NAMES[fi] if fi < len(FILE_NAMES) else "f%d.st" % (fi + 1), text, spans))
     return out
 
 
@@ -121,7 +126,7 @@ def validate_stage_traces(name, arrs, res, cov):
             continue
         lines.append({"ev": "reset", "tid": k, "files": a})
         lines.append({"ev": "parsed", "ok": [bool(p["ok"]) for p in rr.get("parse", [])]})
-        lines += rr["stage_events"]
+        lines += [e for e in rr["stage_events"] if e.get("ev") != "scope"]      # symbol table operations: ScopeTrace.tla (C02)
         lines.append({"ev": "end", "ok": bool(rr.get("analyze_ok")) and all(p["ok"] for p in rr.get("parse", []))})
         index.append(k)
     if not lines:
